@@ -105,6 +105,8 @@ func csvErrClass(err error) string {
 		return "err:intrange"
 	case errors.Is(err, storage.ErrRowTooLarge):
 		return "err:toolarge"
+	case errors.Is(err, storage.ErrFieldNotFound), errors.Is(err, storage.ErrDuplicateColumn):
+		return "err:columns"
 	}
 	return "err:other:" + err.Error()
 }
